@@ -176,8 +176,10 @@ def closed_only(alts):
 def shorthand_cases(r, n):
     """(notation, text, kind, (a,b,c)) — kinds name the native rule evaluated by the extracted Coq function"""
     out = []
-    for _ in range(n):
-        a, b, c = r.choice([0, 0, 1, 2, 7]), r.choice([0, 0, 1, 2, 3, 4, 9]), r.choice([0, 1, 3, 8])
+    # the corner shapes first (a zero in each position: the written precision matters for "~>" and "~"), then random ones
+    fixed = [(1, 2, 0), (2, 0, 0), (0, 3, 0), (0, 0, 3), (7, 0, 8), (1, 9, 1)]
+    for i in range(len(fixed) + n):
+        a, b, c = fixed[i] if i < len(fixed) else (r.choice([0, 0, 1, 2, 7]), r.choice([0, 0, 1, 2, 3, 4, 9]), r.choice([0, 1, 3, 8]))
         t = f"{a}.{b}.{c}"
         out += [("npm", "^" + t, "caret", (a, b, c)), ("npm", "~" + t, "tilde", (a, b, c)), ("npm", f"{a}.{b}.x", "tilde", (a, b, 0)),
                 ("npm", f"{a}.x", "majorx", (a, 0, 0)), ("npm", f"~{a}.{b}", "tilde", (a, b, 0)), ("npm", f"^{a}.{b}", "caret", (a, b, 0)) if (a or b) else ("npm", "^" + t, "caret", (a, b, c)),
